@@ -45,6 +45,10 @@ func zzInfosOf(objs []parser.K8sObject) []*resource.Info {
 			infos = append(infos, zzInfo(o.Kind, "networking.k8s.io/v1", o.NetworkPolicy))
 		case parser.Pod:
 			infos = append(infos, zzInfo(o.Kind, "v1", o.Pod))
+		case parser.AdminNetworkPolicy:
+			infos = append(infos, zzInfo(o.Kind, "policy.networking.k8s.io/v1alpha1", o.AdminNetworkPolicy))
+		case parser.BaselineAdminNetworkPolicy:
+			infos = append(infos, zzInfo(o.Kind, "policy.networking.k8s.io/v1alpha1", o.BaselineAdminNetworkPolicy))
 		}
 	}
 	return infos
